@@ -77,42 +77,8 @@ Fixpoint check_corr (c : case) : bool :=
   | CCrash => false
   end.
 
-(* specification: r = p/q is strictly inside (x-e, x+e) and no fraction with a smaller denominator is *)
-(* the same search on the reduced end points lo = ln/ld, hi = hn/hd in integer arithmetic (about 4x faster under
-   vm_compute than `brute`, which recomputes x - e and x + e in every round): the smallest numerator above lo*q is
-   floor(ln*q / ld) + 1; it is inside iff p/q < hn/hd.  Used only to establish "no denominator <= 400 works". *)
-Fixpoint none_below (ln ld hn hd q : Z) (fuel : nat) : bool :=
-  match fuel with
-  | O => true
-  | S f => let p := (ln * q / ld + 1)%Z in
-           if (p * hd <? hn * q)%Z then false else none_below ln ld hn hd (q + 1)%Z f
-  end.
-Definition none_below_400 (x e : Q) : bool :=
-  let lo := Qred (x - e) in let hi := Qred (x + e) in
-  none_below (Qnum lo) (Zpos (Qden lo)) (Qnum hi) (Zpos (Qden hi)) 1%Z 400.
-
-Definition best_in (x e : Q) (p q : Z) : bool :=
-  match q with
-  | Zpos qq =>
-      in_openb x e (p # qq) &&
-      (if (q <=? 400)%Z then
-         match brute x e (Pos.to_nat qq) with
-         | Some r => (Zpos (Qden r) =? q)%Z      (* brute force stops at the first denominator that works *)
-         | None => false
-         end
-       else (* too large for brute force inside the check: no fraction with denominator <= 400 may be inside;
-               full minimality for such inputs rests on theorem C14_approx_minimal + the correspondence *)
-         none_below_400 x e)
-  | _ => false
-  end.
-
-(* a^(en/ed) for a non-integral exponent is in general irrational: the result must approximate it (|r^ed - a^en| <=
-   2^-40 * a^en, a >= 0) and may claim to be exact only if it is (r^ed == a^en) *)
-Definition pow_ni_ok (a : Q) (en : Z) (ed : positive) (r : Q) (exact_type : bool) : bool :=
-  let lhs := Qpower r (Zpos ed) in
-  let rhs := Qpower a en in
-  Qle_bool 0 a && Qle_bool (Qabs (lhs - rhs)) (rhs * (1 # 1099511627776)) && (negb exact_type || Qeq_bool lhs rhs).
-
+(* the specification proper lives in Spec.v (best_in, pow_ni_ok, operator values, order laws), Float64.v and
+   Dispatch.documented_value; no function of the operational model is called below *)
 Fixpoint check_spec (c : case) : bool :=
   match c with
   | CApproxInt a d den impl =>
